@@ -45,6 +45,13 @@ func buildTree(entries []string) string {
 		panic(err)
 	}
 	for _, e := range entries {
+		if i := strings.Index(e, " -> "); i >= 0 {
+			// a symbolic link (created after its target: targets come earlier in the list)
+			p := filepath.Join(root, e[:i])
+			os.MkdirAll(filepath.Dir(p), 0o755)
+			os.Symlink(e[i+4:], p)
+			continue
+		}
 		p := filepath.Join(root, e)
 		if strings.HasSuffix(e, "/") {
 			os.MkdirAll(p, 0o755)
@@ -56,29 +63,41 @@ func buildTree(entries []string) string {
 	return root
 }
 
+// isDirFollow reports whether the entry is a directory, following symbolic links
+// (a directory segment of a pattern names a directory whether it is reached
+// through a link or not: the literal and the wildcard form agree on that).
+func isDirFollow(path string) bool {
+	fi, err := os.Stat(path)
+	return err == nil && fi.IsDir()
+}
+
+// linkToDir: a symbolic link whose target is a directory. As the *last* segment of
+// a pattern such an entry is neither clearly a file nor clearly not one: don't-care.
+func linkToDir(path string) bool {
+	fi, err := os.Lstat(path)
+	return err == nil && fi.Mode()&os.ModeSymlink != 0 && isDirFollow(path)
+}
+
 // expectedFiles walks the real tree segment by segment with globMatch.
 func expectedFiles(root string, segs []string) []string {
-	if len(segs) == 1 {
-		ents, err := os.ReadDir(root)
-		if err != nil {
-			return nil
-		}
-		var out []string
-		for _, e := range ents {
-			if !e.IsDir() && globMatch(segs[0], e.Name()) {
-				out = append(out, filepath.Join(root, e.Name()))
-			}
-		}
-		return out
-	}
 	ents, err := os.ReadDir(root)
 	if err != nil {
 		return nil
 	}
 	var out []string
+	if len(segs) == 1 {
+		for _, e := range ents {
+			p := filepath.Join(root, e.Name())
+			if !isDirFollow(p) && globMatch(segs[0], e.Name()) {
+				out = append(out, p)
+			}
+		}
+		return out
+	}
 	for _, e := range ents {
-		if e.IsDir() && globMatch(segs[0], e.Name()) {
-			out = append(out, expectedFiles(filepath.Join(root, e.Name()), segs[1:])...)
+		p := filepath.Join(root, e.Name())
+		if isDirFollow(p) && globMatch(segs[0], e.Name()) {
+			out = append(out, expectedFiles(p, segs[1:])...)
 		}
 	}
 	return out
@@ -112,6 +131,9 @@ func checkPatternIn(root, pattern string, absolute bool) (sig, what string) {
 	want := expectedFiles(root, strings.Split(pattern, "/"))
 	var gotClean []string
 	for _, g := range got {
+		if linkToDir(filepath.Clean(g)) {
+			continue // don't-care, see linkToDir
+		}
 		gotClean = append(gotClean, filepath.Clean(g))
 	}
 	sort.Strings(gotClean)
@@ -220,7 +242,7 @@ func TestC20Table(t *testing.T) {
 	}
 }
 
-var segNames = []string{"a", "b", "ab", "ba", "a.b", "x.txt", "a.txt", "a.txt.txt", ".a", "abab", "aXbXb", "data", "d1", "d2", "src"}
+var segNames = []string{"a", "b", "ab", "ba", "a.b", "x.txt", "a.txt", "a.txt.txt", ".a", "abab", "aXbXb", "data", "d1", "d2", "src", "a[1]", "a1", "a?b", "a\\b", "[ab]", "a]"}
 
 func genSegmentPattern(t *rapid.T, dirSegment bool) string {
 	for {
@@ -247,11 +269,11 @@ func genSegmentPattern(t *rapid.T, dirSegment bool) string {
 func TestC20Trees(t *testing.T) {
 	seedNote(t)
 	StartWatchdog("C20", 60*time.Second)
-	st := NewStats("C20", "trees", "generated directory trees of depth <= 3 (files and directories with equal names on different levels, dot files, repeated substrings) x relative and absolute patterns with stars in directory and file segments (star-only directory segments and ./.. segments excluded, as the property says); oracle: segment-by-segment walk with the reference glob; non-trivial = a wildcard directory segment, or a star followed by text occurring more than once in a candidate name; distinct by (tree, pattern)")
+	st := NewStats("C20", "trees", "generated directory trees of depth <= 3 (files and directories with equal names on different levels, dot files, repeated substrings, names with [ ] ? and backslash, symbolic links to directories and files) x relative and absolute patterns with stars in directory and file segments (star-only directory segments and ./.. segments excluded, as the property says); oracle: segment-by-segment walk with the reference glob; non-trivial = a wildcard directory segment, or a star followed by text occurring more than once in a candidate name; distinct by (tree, pattern)")
 	defer st.Write()
 	rapid.Check(t, func(t *rapid.T) {
 		var entries []string
-		nd := rapid.IntRange(0, 4).Draw(t, "ndirs")
+		nd := rapid.IntRange(0, 7).Draw(t, "ndirs")
 		dirs := []string{""}
 		for i := 0; i < nd; i++ {
 			parent := rapid.SampledFrom(dirs).Draw(t, "parent")
@@ -281,6 +303,24 @@ func TestC20Trees(t *testing.T) {
 			seen[f] = true
 			entries = append(entries, f)
 		}
+		// symbolic links: to a directory (followed by directory segments, literal or
+		// wildcard alike) and to a file (a file)
+		nlinks := 0
+		if rapid.IntRange(0, 2).Draw(t, "links") == 0 {
+			for i := rapid.IntRange(1, 2).Draw(t, "nlinks"); i > 0 && len(entries) > 0; i-- {
+				target := rapid.SampledFrom(entries).Draw(t, "ltarget")
+				if strings.Contains(target, " -> ") {
+					continue
+				}
+				name := rapid.SampledFrom(segNames).Draw(t, "lname")
+				if seen[name] {
+					continue
+				}
+				seen[name] = true
+				entries = append(entries, name+" -> "+strings.TrimSuffix(target, "/"))
+				nlinks++
+			}
+		}
 		depth := rapid.IntRange(1, 3).Draw(t, "pdepth")
 		var segs []string
 		wildDir := false
@@ -302,6 +342,9 @@ func TestC20Trees(t *testing.T) {
 		}
 		if c.Absolute {
 			st.Count("absolute")
+		}
+		if nlinks > 0 {
+			st.Count("with_symbolic_links")
 		}
 		var leafNames []string
 		for _, e := range entries {
